@@ -1403,9 +1403,7 @@ func (c *Client) sendSingleMsg(client *smtp.Client, message *Msg) error {
 			affectedMsg: message, errcode: errorCode(err),
 			enhancedStatusCode: enhancedStatusCode(err, escSupport),
 		}
-		if resetSendErr := client.Reset(); resetSendErr != nil {
-			retError.errlist = append(retError.errlist, resetSendErr)
-		}
+		c.abortTransaction(client, retError)
 		return retError
 	}
 	hasError := false
@@ -1426,9 +1424,7 @@ func (c *Client) sendSingleMsg(client *smtp.Client, message *Msg) error {
 		}
 	}
 	if hasError {
-		if resetSendErr := client.Reset(); resetSendErr != nil {
-			rcptSendErr.errlist = append(rcptSendErr.errlist, resetSendErr)
-		}
+		c.abortTransaction(client, rcptSendErr)
 		return rcptSendErr
 	}
 	writer, err := client.Data()
@@ -1438,9 +1434,7 @@ func (c *Client) sendSingleMsg(client *smtp.Client, message *Msg) error {
 			affectedMsg: message, errcode: errorCode(err),
 			enhancedStatusCode: enhancedStatusCode(err, escSupport),
 		}
-		if resetSendErr := client.Reset(); resetSendErr != nil {
-			retError.errlist = append(retError.errlist, resetSendErr)
-		}
+		c.abortTransaction(client, retError)
 		return retError
 	}
 	_, err = message.WriteTo(writer)
@@ -1472,6 +1466,22 @@ func (c *Client) sendSingleMsg(client *smtp.Client, message *Msg) error {
 		}
 	}
 	return nil
+}
+
+// abortTransaction abandons the mail transaction of a failed message with a RSET command.
+//
+// If the server does not confirm the RSET, the state of its mail transaction is unknown and the
+// next message of a batch would be sent into a possibly still open transaction. In that case the
+// connection is closed instead. The RSET error is appended to the error list of the given SendError.
+//
+// Parameters:
+//   - client: A pointer to the smtp.Client that handles the connection to the server.
+//   - sendErr: The SendError of the failed message.
+func (c *Client) abortTransaction(client *smtp.Client, sendErr *SendError) {
+	if resetSendErr := client.Reset(); resetSendErr != nil {
+		sendErr.errlist = append(sendErr.errlist, resetSendErr)
+		_ = client.Close()
+	}
 }
 
 // checkConn ensures that a required server connection is available and extends the connection
